@@ -258,10 +258,13 @@ class Recomputer:
 
     def natural(self, particle):
         """sampling-scale vector (user order) -> {name: value on the natural scale}"""
-        out = {}
-        for p, v in zip(self.case["params"], particle):
-            out[p["name"]] = 10.0 ** float(v) if p["logscale"] else float(v)
-        return out
+        # the back-transform is evaluated with the same numpy expression on the same array shape as the code under test:
+        # numpy's vectorised pow and the scalar pow differ by 1 ulp on ~5% of inputs, and a 1-ulp change of a parameter can
+        # move the adaptive integrator's result at its tolerance level (1e-10), i.e. beyond a 1e-9 comparison
+        vals = np.array([float(v) for v in particle], dtype=float)
+        mask = np.array([bool(p["logscale"]) for p in self.case["params"]])
+        vals[mask] = 10 ** vals[mask]
+        return {p["name"]: float(v) for p, v in zip(self.case["params"], vals)}
 
     def build(self, nat):
         """a loss object from scratch for the initial state implied by `nat`"""
@@ -567,7 +570,7 @@ def run_case(case):
                 history_tols = []
             history_tols += [float(v) for v in abc.tolerances]
             # ---------------- direct oracle on the attributes after this call (no Lean) ----------------------
-            oracle(case, ci, call, abc, rec_cost, plist, history_tols, prev_final, sig_class, viol, tags)
+            oracle(case, ci, call, abc, rec_cost, plist, history_tols, prev_final, sig_class, viol, tags, stream)
             if viol:
                 break
     finally:
@@ -599,7 +602,7 @@ def run_case(case):
             "mismatches": mism, "violations": viol, "tags": tags, "sample": sample}
 
 
-def oracle(case, ci, call, abc, rec_cost, plist, history_tols, prev_final, sig_class, viol, tags):
+def oracle(case, ci, call, abc, rec_cost, plist, history_tols, prev_final, sig_class, viol, tags, stream):
     N = call["N"]
     res = np.atleast_2d(np.asarray(abc.res, dtype=float))
     dist = np.asarray(abc.dist, dtype=float)
@@ -624,7 +627,12 @@ def oracle(case, ci, call, abc, rec_cost, plist, history_tols, prev_final, sig_c
                          "detail": "particle %d = %s prior densities %s" % (i, list(res[i]), dens)})
             return
         c = rec_cost.cost(res[i], scratch)
-        if not EC.rel_close(c, dist[i], rel=1e-9, abs_=1e-12):
+        if not EC.rel_close(c, dist[i], rel=1e-9, abs_=1e-12) and EC.rel_close(c, dist[i], rel=1e-6, abs_=1e-12) \
+                and inputs_differ_by_rounding(case, rec_cost, res[i], stream):
+            # the loss object held values that differ from ours in the last bits (another pow / sum rounding): the adaptive
+            # integrator may then differ at its own tolerance (1e-10 relative per step); compare at 1e-6 instead
+            tags.append("recompute:inputs-differ-by-rounding")
+        elif not EC.rel_close(c, dist[i], rel=1e-9, abs_=1e-12):
             viol.append({"what": "stored distance is not the cost recomputed at the particle (fresh loss object, parameters bound by name)",
                          "signature": "dist-not-recomputed-cost:%s:%s" % (sig_class, loss),
                          "detail": "particle %d = %s : abc.dist=%r recomputed=%r ; names %s" % (
@@ -661,6 +669,28 @@ def oracle(case, ci, call, abc, rec_cost, plist, history_tols, prev_final, sig_c
                 viol.append({"what": "tolerance increased along a get/continue sequence", "signature": "tolerance-increased:sequence:" + sig_class,
                              "detail": "history %s" % history_tols})
                 return
+
+
+def inputs_differ_by_rounding(case, rec_cost, particle, stream):
+    """True iff the recorded trial with this vector fed the loss object values equal to ours to 1e-14 but not bit for bit"""
+    x = [float(v) for v in particle]
+    nat = rec_cost.natural(particle)
+    cat = EC.CATALOGUE[case["model"]]
+    for tr in reversed(list(stream)):
+        if tr["x"] == x and tr["theta"] is not None:
+            pairs = []
+            for name, v in nat.items():
+                if name in cat["states"]:
+                    pairs.append((tr["x0"][cat["states"].index(name)], v))
+                elif isinstance(tr["theta"], dict):
+                    if name not in tr["theta"]:
+                        return False
+                    pairs.append((tr["theta"][name], v))
+                else:
+                    pairs.append((tr["theta"][cat["params"].index(name)], v))
+            close = all(EC.rel_close(a, b, rel=1e-14, abs_=0.0) for a, b in pairs)
+            return close and any(a != b for a, b in pairs)
+    return False
 
 
 def compare(lr, py_calls, stream, mism, tags):
